@@ -4,7 +4,8 @@
 (* big integers (beyond 10^12, 2^32, 2^63 ...), against BigForest.tla over  *)
 (* the recorded DAG (code -> spec; C03 "big-integer counts").               *)
 (* A case: nodes (kids-first), root, trace = <<[op, idx, r]>> with          *)
-(*   op   "len" | "solutions" | "ambiguities" | "lazy" | "nonlazy" |        *)
+(*   op   "len" | "solutions" | "ambiguities" | "lazy" (get_tree) |         *)
+(*        "nonlazy" (get_nonlazy_tree) | "getitem" (forest[i]) |            *)
 (*        "first" | "iter3" (the first three trees of iteration)            *)
 (*   idx  the index as limbs (base 1000, little endian)                     *)
 (*   r    [kind |-> "int", v |-> limbs] | [kind |-> "tree", tree |-> t] |   *)
@@ -48,14 +49,14 @@ Clause ==
                        ELSE IF e.r.kind = "exc:OverflowError" /\ BigLess(MaxSize, cnt) THEN "ok"
                        ELSE "C03:big:len"
     [] e.op = "ambiguities" -> IF e.r.kind = "int" /\ e.r.v = ToBig(Cardinality(AmbNodes(FN))) THEN "ok" ELSE "C03:big:ambiguities"
-    [] e.op \in {"lazy", "nonlazy"} -> GetClause(e.idx, e.r)
+    [] e.op \in {"lazy", "nonlazy", "getitem"} -> GetClause(e.idx, e.r)
     [] e.op = "first" -> GetClause(<<>>, e.r)
     [] e.op = "iter3" -> IF e.r.kind # "trees" THEN "C03:big:iteration-raises"
                          ELSE IF BigLess(<<2>>, cnt) /\ Len(e.r.trees) # 3 THEN "C03:big:iteration-stops-early"
                          ELSE IterClause(e.r.trees, 1, <<>>)
     [] OTHER -> "harness:unknown-op"
 Reveal ==
-  IF e.op \in {"lazy", "nonlazy"} /\ e.r.kind = "tree" THEN { <<e.idx, e.r.tree>> }
+  IF e.op \in {"lazy", "nonlazy", "getitem"} /\ e.r.kind = "tree" THEN { <<e.idx, e.r.tree>> }
   ELSE IF e.op = "first" /\ e.r.kind = "tree" THEN { <<<<>>, e.r.tree>> }
   ELSE IF e.op = "iter3" /\ e.r.kind = "trees" THEN { <<IF i = 1 THEN <<>> ELSE <<i - 1>>, e.r.trees[i]>> : i \in DOMAIN e.r.trees }
   ELSE {}
